@@ -441,6 +441,13 @@ func (c *control) scanDirBlock(buf []byte, pos int, dirName string, open, close 
 					return pos - 3
 				}
 				return pos - 2
+			case '-', '0', '1', '2', '3', '4', '5', '6', '7', '8', '9', ',', 'v', '#':
+				// prefix parameters, remain in tilde
+			case '\'':
+				// quoted character parameter, skip the character and stay in tilde
+				if pos < end {
+					pos++
+				}
 			default:
 				tilde = false
 			}
@@ -1549,6 +1556,13 @@ func (c *control) scanCond(buf []byte, pos int) ([]string, string, int) {
 					strs = append(strs, string(buf[start:pos-2]))
 				}
 				return strs, def, pos - 2
+			case '-', '0', '1', '2', '3', '4', '5', '6', '7', '8', '9', ',', 'v', '#':
+				// prefix parameters, remain in tilde
+			case '\'':
+				// quoted character parameter, skip the character and stay in tilde
+				if pos < end {
+					pos++
+				}
 			default:
 				tilde = false
 			}
